@@ -18,6 +18,7 @@ as a breach of the loop protocol (property C17).
 import gc
 import sys
 from heapq import heappush, heappop
+from traceback import clear_frames
 
 PAUSE, SLEEP, LOCKWAIT = 0, 1, 2
 KIND_NAMES = ("pause", "sleep", "lock_wait")
@@ -275,6 +276,9 @@ class Sim:
         except BaseException as err:
             task.state = Task.DONE
             task.error = err
+            # keep the exception object (identity matters) but not the frames it pins
+            clear_frames(err.__traceback__)
+            err.__traceback__ = None
             task.token = None
             self.trace.append(task.id * 4 + 3)
             self._after_step()
